@@ -1711,11 +1711,11 @@ def judgeC17 (ops : List OpRec) : List String :=
       let nexts := if nexts.isEmpty then [[]] else nexts
       -- 1c. the others keep being delivered: a partition is not fetched alone, failing, poll after poll
       let aloneNow : Option (Bytes × Int) := match askedTPs with
-        | [x] => if s.nparts > 1 && failed then some x else none
+        | [x] => if s.nparts > 1 && failed && !ioFault then some x else none
         | _ => none
       let fails := match aloneNow with
         | some x => if s.aloneWho == some x then s.aloneFails + 1 else 1
-        | none => if askedTPs.isEmpty then s.aloneFails else 0
+        | none => if askedTPs.isEmpty || ioFault then s.aloneFails else 0
       let s := { s with aloneFails := fails, aloneWho := if aloneNow.isSome then aloneNow else (if askedTPs.isEmpty then s.aloneWho else none) }
       let s := if fails == 3 then v s "C17-others-starved" op s!"{askedTPs.map fun (x : Bytes × Int) => (toHexTok x.1, x.2)} was fetched alone by {fails} failing polls in a row; {s.nparts} partitions are assigned and none of the others was asked for" else s
       -- 2. outcome per partition from the broker's answers
